@@ -530,7 +530,7 @@ fn ros2_kind(cb: &Cb) -> response_time_analysis::ros2::rr::CallbackType {
 fn check_ros2(seed: u64) -> i32 {
     use response_time_analysis::ros2;
     let mut r = Rng(seed ^ 0x2052);
-    for _iter in 0..1200 {
+    for _iter in 0..8000 {
         // supply
         let p = 1 + r.below(6); let q = 1 + r.below(p); let dl = q + r.below(p - q + 1);
         let (sb, pp, qq, dd, sdesc) = supply_case(r.below(3), q, dl, p);
@@ -586,19 +586,23 @@ fn check_ros2(seed: u64) -> i32 {
         // ---------------- ECRTS'19: request-bound functions of sporadic tasks
         let mk = |r: &mut Rng, k: usize| -> Vec<(u64, u64, u64)> { (0..k).map(|_| { let t = 3 + r.below(9); (t, r.below(t + 2), 1 + r.below(3)) }).collect() };
         let own = mk(&mut r, 1)[0];
+        // cost model of the task under analysis: scalar, or multiframe (least_wcet then depends on the number of jobs)
+        let oc: Vec<u64> = if r.below(2) == 0 { vec![own.2] } else { vec![own.2 + 1 + r.below(3), own.2] };
         let k_other = r.below(3) as usize; let others = mk(&mut r, k_other);
         let k_pre = r.below(3) as usize; let prefix = mk(&mut r, k_pre);
         let b = r.below(4);
         let rbf1 = |x: &(u64, u64, u64), dl: u64| if dl == 0 { 0 } else { x.2 * ceil_div(dl + x.1, x.0) };
+        let own_na = |dl: u64| if dl == 0 { 0 } else { ceil_div(dl + own.1, own.0) };
+        let own_f = |dl: u64| (0..own_na(dl)).map(|i| oc[(i as usize) % oc.len()]).sum::<u64>();
         let sum = |v: &Vec<(u64, u64, u64)>, dl: u64| v.iter().map(|x| rbf1(x, dl)).sum::<u64>();
-        let lw_own = |dl: u64| if rbf1(&own, dl) > 0 { own.2 } else { 0 };
-        let to_rbf = |x: &(u64, u64, u64)| RBF::new(Sporadic::new(d(x.0), d(x.1)), Scalar::new(s(x.2)));
-        let own_rbf = to_rbf(&own);
+        let lw_own = |dl: u64| oc.iter().take(own_na(dl) as usize).copied().min().unwrap_or(0);
+        let to_rbf = |x: &(u64, u64, u64)| RBF::new(Sporadic::new(d(x.0), d(x.1)), wcet::Multiframe::new(vec![s(x.2)]));
+        let own_rbf = RBF::new(Sporadic::new(d(own.0), d(own.1)), wcet::Multiframe::new(oc.iter().map(|c| s(*c)).collect()));
         let other_rbfs: Vec<_> = others.iter().map(to_rbf).collect();
         let prefix_rbfs: Vec<_> = prefix.iter().map(to_rbf).collect();
         let mut full_rbfs = prefix_rbfs.clone(); full_rbfs.push(own_rbf.clone());
-        let mut full = prefix.clone(); full.push(own);
-        desc = format!("{{\"supply\": {}, \"limit\": {}, \"own(t,j,c)\": {:?}, \"interfering\": {:?}, \"chain_prefix\": {:?}, \"blocking\": {}}}", sdesc, limit, own, others, prefix, b);
+        let full_f = |dl: u64| sum(&prefix, dl) + own_f(dl);
+        desc = format!("{{\"supply\": {}, \"limit\": {}, \"own(t,j,costs)\": [{}, {}, {:?}], \"interfering\": {:?}, \"chain_prefix\": {:?}, \"blocking\": {}}}", sdesc, limit, own.0, own.1, oc, others, prefix, b);
         // generic evaluator: busy window, then every demand step offset <= max_bw
         let ecrts = |dem: &dyn Fn(u64) -> u64, wb: &dyn Fn(u64) -> u64, w2: &dyn Fn(u64, u64) -> u64| -> Option<u64> {
             let max_bw = scan_sbf(&sbf, 0, limit, wb)?;
@@ -610,16 +614,16 @@ fn check_ros2(seed: u64) -> i32 {
             Some(best)
         };
         let intf_iv = |a: u64, resp: u64| { let w = lw_own(a + resp); if resp > w { a + resp - w + 1 } else { a + 1 } };
-        let all: Vec<(u64, u64, u64)> = { let mut v = others.clone(); v.push(own); v };
-        let all_rbfs: Vec<_> = all.iter().map(to_rbf).collect();
+        let all_f = |dl: u64| sum(&others, dl) + own_f(dl);
+        let all_rbfs: Vec<_> = { let mut v: Vec<_> = others.iter().map(to_rbf).collect(); v.push(own_rbf.clone()); v };
         cmp!("ros2::rta_event_source", ros2::rta_event_source(&*sb, &demand::Slice::of(&all_rbfs), d(limit)),
-             ecrts(&|x| sum(&all, x), &|x| sum(&all, x), &|a, _| sum(&all, a + 1)));
+             ecrts(&|x| all_f(x), &|x| all_f(x), &|a, _| all_f(a + 1)));
         cmp!("ros2::rta_timer", ros2::rta_timer(&*sb, &own_rbf, &demand::Slice::of(&other_rbfs), s(b), d(limit)),
-             ecrts(&|x| rbf1(&own, x), &|x| rbf1(&own, x) + b + sum(&others, x), &|a, x| rbf1(&own, a + 1) + sum(&others, intf_iv(a, x)) + b));
+             ecrts(&|x| own_f(x), &|x| own_f(x) + b + sum(&others, x), &|a, x| own_f(a + 1) + sum(&others, intf_iv(a, x)) + b));
         cmp!("ros2::rta_polling_point_callback", ros2::rta_polling_point_callback(&*sb, &own_rbf, &demand::Slice::of(&other_rbfs), d(limit)),
-             ecrts(&|x| rbf1(&own, x), &|x| rbf1(&own, x) + sum(&others, x), &|a, x| rbf1(&own, a + 1) + sum(&others, intf_iv(a, x))));
+             ecrts(&|x| own_f(x), &|x| own_f(x) + sum(&others, x), &|a, x| own_f(a + 1) + sum(&others, intf_iv(a, x))));
         cmp!("ros2::rta_processing_chain", ros2::rta_processing_chain(&*sb, &own_rbf, &demand::Slice::of(&prefix_rbfs), &demand::Slice::of(&full_rbfs), &demand::Slice::of(&other_rbfs), d(limit)),
-             ecrts(&|x| sum(&full, x), &|x| sum(&full, x) + sum(&others, x), &|a, x| rbf1(&own, a + 1) + sum(&prefix, intf_iv(a, x)) + sum(&others, intf_iv(a, x))));
+             ecrts(&|x| full_f(x), &|x| full_f(x) + sum(&others, x), &|a, x| own_f(a + 1) + sum(&prefix, intf_iv(a, x)) + sum(&others, intf_iv(a, x))));
     }
     0
 }
@@ -627,7 +631,7 @@ fn check_ros2(seed: u64) -> i32 {
 fn check_ros2_bw_all(seed: u64) -> i32 {
     use response_time_analysis::ros2;
     let mut r = Rng(seed ^ 0x2052);
-    for _iter in 0..1200 {
+    for _iter in 0..8000 {
         // supply
         let p = 1 + r.below(6); let q = 1 + r.below(p); let dl = q + r.below(p - q + 1);
         let (sb, pp, qq, dd, sdesc) = supply_case(r.below(3), q, dl, p);
@@ -683,19 +687,23 @@ fn check_ros2_bw_all(seed: u64) -> i32 {
         // ---------------- ECRTS'19: request-bound functions of sporadic tasks
         let mk = |r: &mut Rng, k: usize| -> Vec<(u64, u64, u64)> { (0..k).map(|_| { let t = 3 + r.below(9); (t, r.below(t + 2), 1 + r.below(3)) }).collect() };
         let own = mk(&mut r, 1)[0];
+        // cost model of the task under analysis: scalar, or multiframe (least_wcet then depends on the number of jobs)
+        let oc: Vec<u64> = if r.below(2) == 0 { vec![own.2] } else { vec![own.2 + 1 + r.below(3), own.2] };
         let k_other = r.below(3) as usize; let others = mk(&mut r, k_other);
         let k_pre = r.below(3) as usize; let prefix = mk(&mut r, k_pre);
         let b = r.below(4);
         let rbf1 = |x: &(u64, u64, u64), dl: u64| if dl == 0 { 0 } else { x.2 * ceil_div(dl + x.1, x.0) };
+        let own_na = |dl: u64| if dl == 0 { 0 } else { ceil_div(dl + own.1, own.0) };
+        let own_f = |dl: u64| (0..own_na(dl)).map(|i| oc[(i as usize) % oc.len()]).sum::<u64>();
         let sum = |v: &Vec<(u64, u64, u64)>, dl: u64| v.iter().map(|x| rbf1(x, dl)).sum::<u64>();
-        let lw_own = |dl: u64| if rbf1(&own, dl) > 0 { own.2 } else { 0 };
-        let to_rbf = |x: &(u64, u64, u64)| RBF::new(Sporadic::new(d(x.0), d(x.1)), Scalar::new(s(x.2)));
-        let own_rbf = to_rbf(&own);
+        let lw_own = |dl: u64| oc.iter().take(own_na(dl) as usize).copied().min().unwrap_or(0);
+        let to_rbf = |x: &(u64, u64, u64)| RBF::new(Sporadic::new(d(x.0), d(x.1)), wcet::Multiframe::new(vec![s(x.2)]));
+        let own_rbf = RBF::new(Sporadic::new(d(own.0), d(own.1)), wcet::Multiframe::new(oc.iter().map(|c| s(*c)).collect()));
         let other_rbfs: Vec<_> = others.iter().map(to_rbf).collect();
         let prefix_rbfs: Vec<_> = prefix.iter().map(to_rbf).collect();
         let mut full_rbfs = prefix_rbfs.clone(); full_rbfs.push(own_rbf.clone());
-        let mut full = prefix.clone(); full.push(own);
-        desc = format!("{{\"supply\": {}, \"limit\": {}, \"own(t,j,c)\": {:?}, \"interfering\": {:?}, \"chain_prefix\": {:?}, \"blocking\": {}}}", sdesc, limit, own, others, prefix, b);
+        let full_f = |dl: u64| sum(&prefix, dl) + own_f(dl);
+        desc = format!("{{\"supply\": {}, \"limit\": {}, \"own(t,j,costs)\": [{}, {}, {:?}], \"interfering\": {:?}, \"chain_prefix\": {:?}, \"blocking\": {}}}", sdesc, limit, own.0, own.1, oc, others, prefix, b);
         // generic evaluator: busy window, then every demand step offset <= max_bw
         let ecrts = |dem: &dyn Fn(u64) -> u64, wb: &dyn Fn(u64) -> u64, w2: &dyn Fn(u64, u64) -> u64| -> Option<u64> {
             let max_bw = scan_sbf(&sbf, 0, limit, wb)?;
@@ -707,16 +715,16 @@ fn check_ros2_bw_all(seed: u64) -> i32 {
             Some(best)
         };
         let intf_iv = |a: u64, resp: u64| { let w = lw_own(a + resp); if resp > w { a + resp - w + 1 } else { a + 1 } };
-        let all: Vec<(u64, u64, u64)> = { let mut v = others.clone(); v.push(own); v };
-        let all_rbfs: Vec<_> = all.iter().map(to_rbf).collect();
+        let all_f = |dl: u64| sum(&others, dl) + own_f(dl);
+        let all_rbfs: Vec<_> = { let mut v: Vec<_> = others.iter().map(to_rbf).collect(); v.push(own_rbf.clone()); v };
         cmp!("ros2::rta_event_source", ros2::rta_event_source(&*sb, &demand::Slice::of(&all_rbfs), d(limit)),
-             ecrts(&|x| sum(&all, x), &|x| sum(&all, x), &|a, _| sum(&all, a + 1)));
+             ecrts(&|x| all_f(x), &|x| all_f(x), &|a, _| all_f(a + 1)));
         cmp!("ros2::rta_timer", ros2::rta_timer(&*sb, &own_rbf, &demand::Slice::of(&other_rbfs), s(b), d(limit)),
-             ecrts(&|x| rbf1(&own, x), &|x| rbf1(&own, x) + b + sum(&others, x), &|a, x| rbf1(&own, a + 1) + sum(&others, intf_iv(a, x)) + b));
+             ecrts(&|x| own_f(x), &|x| own_f(x) + b + sum(&others, x), &|a, x| own_f(a + 1) + sum(&others, intf_iv(a, x)) + b));
         cmp!("ros2::rta_polling_point_callback", ros2::rta_polling_point_callback(&*sb, &own_rbf, &demand::Slice::of(&other_rbfs), d(limit)),
-             ecrts(&|x| rbf1(&own, x), &|x| rbf1(&own, x) + sum(&others, x), &|a, x| rbf1(&own, a + 1) + sum(&others, intf_iv(a, x))));
+             ecrts(&|x| own_f(x), &|x| own_f(x) + sum(&others, x), &|a, x| own_f(a + 1) + sum(&others, intf_iv(a, x))));
         cmp!("ros2::rta_processing_chain", ros2::rta_processing_chain(&*sb, &own_rbf, &demand::Slice::of(&prefix_rbfs), &demand::Slice::of(&full_rbfs), &demand::Slice::of(&other_rbfs), d(limit)),
-             ecrts(&|x| sum(&full, x), &|x| sum(&full, x) + sum(&others, x), &|a, x| rbf1(&own, a + 1) + sum(&prefix, intf_iv(a, x)) + sum(&others, intf_iv(a, x))));
+             ecrts(&|x| full_f(x), &|x| full_f(x) + sum(&others, x), &|a, x| own_f(a + 1) + sum(&prefix, intf_iv(a, x)) + sum(&others, intf_iv(a, x))));
     }
     0
 }
